@@ -934,3 +934,75 @@ def precision_downgrades(fn_node: ast.AST):
         if nm in ("float32", "float16", "half", "single") and c.args:
             out.append((c, nm))
     return out
+
+
+def repeating_index_accumulations(fn_node: ast.FunctionDef):
+    """`a[idx] += v` / `a[idx] -= v` where idx is an index array that repeats by construction (inverse of np.unique,
+    labels from predict / argmin / argmax, draws with replacement, searchsorted / digitize bins): numpy applies each
+    distinct index once.  [(statement, why)]"""
+    from .dataflow import flow_of as _flow
+
+    REPEATING = ("unique", "searchsorted", "digitize", "choice", "randint", "argmin", "argmax", "predict")
+    out = []
+    flow = None
+    for st in ast.walk(fn_node):
+        if not (isinstance(st, ast.AugAssign) and isinstance(st.target, ast.Subscript)):
+            continue
+        idx = st.target.slice
+        if isinstance(idx, (ast.Slice, ast.Constant)):
+            continue
+        flow = flow or _flow(fn_node)
+        at = flow.node_containing(st)
+        why = None
+        for c in ast.walk(idx):
+            if isinstance(c, ast.Call) and dotted_name(c.func).split(".")[-1] in REPEATING:
+                why = dotted_name(c.func)
+        for x in ast.walk(idx):
+            if isinstance(x, ast.Name) and at is not None:
+                for d in flow.reaching(at, x.id):
+                    v = d.value
+                    if v is not None and isinstance(v, ast.Call) and dotted_name(v.func).split(".")[-1] in REPEATING:
+                        last = dotted_name(v.func).split(".")[-1]
+                        if last == "unique" and not any(k.arg == "return_inverse" for k in v.keywords):
+                            continue
+                        if last == "unique" and not d.path:
+                            continue
+                        if last == "unique" and d.path and d.path[0] == 0:
+                            continue
+                        if last == "choice" and any(k.arg == "replace" and isinstance(k.value, ast.Constant) and k.value.value is False for k in v.keywords):
+                            continue
+                        why = dotted_name(v.func)
+        if why:
+            out.append((st, why))
+    return out
+
+
+def numpy_contract_pack(ctx, R, rule: str, funcs, what: str):
+    """Construct-level numpy / Python contracts checked in the functions a property lives in: a violation of one of them
+    is a defect wherever it stands; it is reported under the property whose code contains it.
+      lost store through chained advanced indexing, accumulation through a repeating index array, a mutated mutable
+      default argument, a matrix rebuilt from `eigh` with the eigenvectors as rows."""
+    n = 0
+    seen = set()
+    for fi in funcs:
+        if fi.qualname in seen:
+            continue
+        seen.add(fi.qualname)
+        n += 1
+        for (st, idx, why) in lost_fancy_stores(fi.node):
+            R.check(rule, "no store goes through chained advanced indexing", False, fi, st,
+                    msg=f"{fi.short}: `{ast.unparse(st)[:70]}` assigns through `[{idx}]`, which is {why}: advanced indexing returns a copy, so the store is lost -- {what}",
+                    key=f"contract:lost-store:{fi.short}")
+        for (st, why) in repeating_index_accumulations(fi.node):
+            R.check(rule, "no in-place accumulation through an index array that repeats by construction", False, fi, st,
+                    msg=f"{fi.short}: `{ast.unparse(st)[:70]}` accumulates through an index array from `{why}`, which repeats indices: numpy applies each distinct index once, all "
+                        f"other contributions are dropped (np.add.at / np.bincount accumulate) -- {what}", key=f"contract:fancy-accumulate:{fi.short}")
+        for (param, d, node) in mutable_default_mutations(fi.node):
+            R.check(rule, "no mutable default argument is modified", False, fi, node,
+                    msg=f"{fi.short}: `{ast.unparse(node)[:60]}` modifies the default `{param}={ast.unparse(d)}`, one object shared by every call: what one call leaves in it is still there "
+                        f"in the next -- {what}", key=f"contract:mutable-default:{fi.short}:{param}")
+        for (node, why) in eigh_reconstruction_errors(fi.node):
+            R.check(rule, "a matrix rebuilt from its eigendecomposition is V diag(w) V^T", False, fi, node,
+                    msg=f"{fi.short}: `{ast.unparse(node)[:70]}`: {why} -- {what}", key=f"contract:eigh-rows:{fi.short}")
+    R.check(rule, "numpy / Python construct contracts hold in the property's functions", True, None, None, key="contract-scan")
+    R.analysed[f"{rule}:functions scanned for construct contracts"] = n
